@@ -92,6 +92,37 @@ func TestC20(t *testing.T) {
 			}
 		}
 	}
+	// licences whose key material contains exactly one short repeated sequence (4-9 bytes, at a seeded distance): compressors
+	// take a different path for them than for random bytes (literal only) or for constant/periodic material (long copies)
+	for v := 2; v <= 3; v++ {
+		for q := 0; q < vk.N(1500, 40000); q++ {
+			caseNo++
+			if !vk.Mine(caseNo) {
+				continue
+			}
+			key, salt := r.Bytes(32), r.Bytes(map[int]int{2: 24, 3: 16}[v])
+			all := append(append([]byte{}, key...), salt...)
+			rl := 4 + r.Intn(6)
+			src := r.Intn(len(all) - 2*rl)
+			dst := src + rl + r.Intn(len(all)-src-2*rl+1)
+			copy(all[dst:dst+rl], all[src:src+rl])
+			copy(key, all[:32])
+			copy(salt, all[32:])
+			var lic license.License
+			if v == 2 {
+				lic = &license.V2{EncryptionKey: key, EncryptionSalt: salt, User: r.U32(), Sign: r.U32(), Index: uint32(r.Intn(4))}
+			} else {
+				lic = &license.V3{EncryptionKey: key, EncryptionSalt: salt, User: r.U32(), Sign: r.U32(), Index: uint32(r.Intn(4))}
+			}
+			s := lic.String()
+			back, err, pan := parse(s)
+			rec.Case(vk.Hash("licrep", v, s), true)
+			rec.Inc("licences_with_one_repeat_round_tripped")
+			if pan != "" || err != nil || back == nil || back.Contract() != lic.Contract() || back.Signature() != lic.Signature() || back.Master() != lic.Master() || back.String() != s {
+				rec.Violation(caseNo, fmt.Sprintf("licence-roundtrip/v%d", v), fmt.Sprintf("licence whose key material repeats %d bytes (offset %d again at %d): Parse(String()) = err %v panic %q", rl, src, dst, err, pan), map[string]interface{}{"licence": s})
+			}
+		}
+	}
 	for v := 1; v <= 3; v++ {
 		for li := 0; li < vk.N(2, 6); li++ {
 			lic := newLic(v)
